@@ -209,6 +209,12 @@ func vwAlignedAtCreation(sg *meta2.ShardGroupInfo, dur time.Duration) bool {
 	if dur <= 0 {
 		return true
 	}
+	if lo := time.Unix(0, models.MinNanoTime); sg.StartTime.Equal(lo) {
+		// lower edge of the representable range: like the upper edge, the span is cut there
+		// (the aligned start would lie before the smallest expressible instant)
+		alignedStart := sg.EndTime.Add(-dur)
+		return sg.EndTime.Truncate(dur).Equal(sg.EndTime) && !alignedStart.After(lo)
+	}
 	if !sg.StartTime.Truncate(dur).Equal(sg.StartTime) {
 		return false
 	}
